@@ -692,7 +692,11 @@ class CoreMixin:
                         if v.extra is not None:
                             v.extra.setdefault("class_attr", (c.qualname, name))
                         self._classattr_memo[key] = v
-                return self._classattr_memo[key]
+                cv = self._classattr_memo[key]
+                if inst is not None and cv.op in ("Func", "Closure"):
+                    # a function stored in the class body is a method: bound when reached through an instance
+                    return self.mk("BoundMethod", (inst, cv), None, site)
+                return cv
         base = inst if inst is not None else (via_class or self.class_node(ci))
         if inst is not None:
             key = (inst.id, name)
